@@ -30,6 +30,11 @@ pub fn template_src(i: usize, edges: u32, n: usize, calls_f: bool) -> String {
             s.push_str(&format!("    component c{j} = T{j}(n);\n    c{j}.in <== in;\n"));
         }
     }
+    if n == 3 && i == 2 {
+        // The last template of a three-template project also fails SSA conversion (a local is
+        // read before it is assigned): its lifting-stage warning and the error are both due.
+        s.push_str("    var u;\n    var w = u + 1;\n");
+    }
     s.push_str("}\n");
     s
 }
